@@ -616,7 +616,9 @@ func (w *World) buildResult(c *mintCtx, r Result, rt reflect.Type, top bool) ref
 				}
 				return sl, ser
 			}
-			if !flatten {
+			// a decorator returns the whole group, i.e. a slice of members
+			whole := flatten || (f.Role == RoleDec && r.Kind == RGroup)
+			if !whole {
 				v, ser := one(0)
 				c.minted = append(c.minted, ser)
 				return v
